@@ -113,6 +113,10 @@ class ThrottleExecutor(CanCustomizeBind, Executor):
         self._to_submit = deque()
         self._lock = Lock()
         self._event = get_event()
+        # Set whenever a job leaves the queue; blocking submit() waits on this.
+        # (Not self._event: the submit thread clears that one, which can swallow
+        # a wake-up meant for a blocked submitter.)
+        self._space_event = get_event()
         self._running_count = AtomicInt()
         self._throttle = count if callable(count) else lambda: count
         self._last_throttle = self._throttle()
@@ -156,11 +160,12 @@ class ThrottleExecutor(CanCustomizeBind, Executor):
 
     def _block_until_ready(self, throttle_val):
         while self._block and not self._shutdown.is_shutdown:
+            self._space_event.clear()
             if throttle_val is None or len(self._to_submit) < throttle_val:
                 # None means no throttling at all
                 return
             self._log.debug("%s: throttling on submit", self._name)
-            self._event.wait(30.0)
+            self._space_event.wait(30.0)
 
     def _eval_throttle(self):
         try:
@@ -190,6 +195,7 @@ class ThrottleExecutor(CanCustomizeBind, Executor):
                     self._to_submit.remove(job)
                     metrics.THROTTLE_QUEUE.labels(executor=self._name).dec()
                     self._log.debug("Cancelled %s", job)
+                    self._space_event.set()
                     return True
         self._log.debug("Could not find for cancel: %s", future)
         return False
@@ -228,6 +234,10 @@ def _submit_loop_iter(executor):
         executor._log.debug(
             "Submitting %s, throttling %s", len(to_submit), len(executor._to_submit)
         )
+
+    if to_submit:
+        # the queue got shorter: a blocked submit() may proceed
+        executor._space_event.set()
 
     for job in to_submit:
         executor._do_submit(job)
